@@ -1,8 +1,8 @@
 SPECIFICATION Spec
 CONSTANTS Cfg <- TheCfg
  Wedge = FALSE
- MakeOnPending = "replace"
+ MakeOnPending = "keep"
  FireDropsBs = FALSE
-INVARIANT Mark
-POSTCONDITION Post
+INVARIANT Done
+POSTCONDITION Accepted
 CHECK_DEADLOCK FALSE
